@@ -5,7 +5,7 @@
 set -e
 cd "$(dirname "$0")"
 mkdir -p ocaml/extracted evidence replays
-python3 tools/extract_facts.py /repo/src coq/theories/Generated.v
+python3 tools/extract_facts.py ${YV_REPO:-/repo}/src coq/theories/Generated.v
 cd coq
 coq_makefile -f _CoqProject -o Makefile >/dev/null
 timeout 3000 make -j16
